@@ -35,22 +35,79 @@ type RecvCase struct {
 	Chunk    int            `json:"chunk"`
 	ReadLate bool           `json:"read_late"` // the application only starts reading after all segments were injected
 	DataSeed uint64         `json:"data_seed"`
+	// Active: the stack is the active opener (Connect) and the scripted sender
+	// answers its SYN; SynData bytes of the stream ride on that SYN-ACK (legal;
+	// the stack may take them or leave them to the retransmission, but what it
+	// acknowledges it must deliver)
+	Active  bool `json:"active,omitempty"`
+	SynData int  `json:"syn_data,omitempty"`
+}
+
+// openActive lets the stack connect to the scripted peer, whose SYN-ACK carries
+// the first synData bytes of the stream.
+func openActive(env *rawpeer.Env, c RecvCase, synData []byte) (*netsim.Sock, *rawpeer.Peer, bool) {
+	cs, serr := netsim.NewSock(env.Stack, 6, env.Net())
+	if serr != nil {
+		return nil, nil, false
+	}
+	p := env.Peer(0, 80, c.ISS)
+	p.Wnd = 65535
+	done := make(chan bool, 1)
+	go func() {
+		e, ok := cs.ConnectNotify(tcpip.FullAddress{Addr: env.PeerAddr(), Port: 80}, 5*time.Second, nil)
+		done <- ok && e == nil
+	}()
+	f, _, ok := env.Tap.Scan(0, 3*time.Second, func(f netsim.Frame) bool {
+		return f.Pkt.L4Kind == "tcp" && f.Pkt.Flags&codec.SYN != 0
+	})
+	if !ok {
+		cs.EP.Close()
+		<-done
+		return nil, nil, false
+	}
+	p.StackPort = f.Pkt.SrcPort
+	p.Cur = 0
+	p.SynAckPayload = synData
+	if !p.AcceptActive(rawpeer.SynOpts{MSS: 1460, WS: c.WS, TS: c.TS, SACKPerm: c.Env.SACK}, 3*time.Second) || !<-done {
+		cs.EP.Close()
+		return nil, nil, false
+	}
+	return cs, p, true
 }
 
 func runRecv(c RecvCase) *evid.Failure {
 	env := rawpeer.NewEnv(c.Env)
 	defer env.Close()
-	l, s, p, err := env.Passive(80, 50000, c.ISS, rawpeer.SynOpts{MSS: 1460, WS: c.WS, TS: c.TS, SACKPerm: c.Env.SACK}, 65535)
-	if l != nil {
-		defer l.EP.Close()
-	}
-	if err != nil {
-		evid.Label("raw-recv:no-connection")
-		return nil
+	want := pattern(c.DataSeed, c.Stream)
+	var s *netsim.Sock
+	var p *rawpeer.Peer
+	if c.Active {
+		if c.SynData > c.Stream {
+			c.SynData = c.Stream
+		}
+		var ok bool
+		s, p, ok = openActive(env, c, want[:c.SynData])
+		if !ok {
+			evid.Label("raw-recv:no-connection")
+			return nil
+		}
+		evid.Label("raw-recv:active-open")
+		if c.SynData > 0 {
+			evid.Label(fmt.Sprintf("raw-recv:data-on-syn-ack:stack-took-%v", p.SynAckTaken > 0))
+		}
+	} else {
+		l, s2, p2, err := env.Passive(80, 50000, c.ISS, rawpeer.SynOpts{MSS: 1460, WS: c.WS, TS: c.TS, SACKPerm: c.Env.SACK}, 65535)
+		if l != nil {
+			defer l.EP.Close()
+		}
+		if err != nil {
+			evid.Label("raw-recv:no-connection")
+			return nil
+		}
+		s, p = s2, p2
 	}
 	defer s.EP.Close()
 	p.Chunk = c.Chunk
-	want := pattern(c.DataSeed, c.Stream)
 	var got []byte
 	eof := false
 	readSome := func(wait time.Duration) *evid.Failure {
@@ -82,6 +139,9 @@ func runRecv(c RecvCase) *evid.Failure {
 	}
 	covered := make([]bool, c.Stream+1) // index Stream = FIN
 	edge := 0
+	for ; c.Active && edge < p.SynAckTaken; edge++ {
+		covered[edge] = true // what the handshake ACK acknowledged of the SYN-ACK's payload counts as sent
+	}
 	straddle, ooo, dupOverlap := false, false, false
 	for _, sg := range c.Segs {
 		if sg.Off < edge && sg.Off+sg.Len > edge {
@@ -216,6 +276,10 @@ func genRecv(rt *rapid.T) RecvCase {
 	c.Chunk = rapid.SampledFrom([]int{0, 0, 1, 16}).Draw(rt, "chunk")
 	c.ReadLate = rapid.Bool().Draw(rt, "read_late")
 	c.DataSeed = rapid.Uint64().Draw(rt, "seed")
+	if rapid.IntRange(0, 3).Draw(rt, "active-open") == 1 {
+		c.Active = true
+		c.SynData = rapid.SampledFrom([]int{0, 1, 10, 10, 100, 1400}).Draw(rt, "syn-data")
+	}
 	max := c.Env.RcvBuf/2 - 1
 	if max > 6000 {
 		max = 6000
